@@ -339,6 +339,7 @@ fn main() -> int {{
   let a: int = 7
   let b: int = 2
   let c: bool = false
+  let LIMIT: int = 9
   let r: {ty} = {expr}
   (println r)
   return 0
@@ -347,16 +348,13 @@ fn main() -> int {{
 
 
 def typed_tree(rng, ty, dep, safe):
-    """type-correct trees; safe=True avoids the four known-unsafe shapes so that both spellings must compile identically"""
+    """type-correct trees; safe=True avoids the one shape that is still read differently (a parenthesised group that begins
+    with a unary operator) so that both spellings must compile identically; postfix forms appear in every operand position"""
     def operand(ty, rhs):
         if ty == 'int':
-            ch = [N(rng.randrange(0, 50)), V('a'), V('b'), C('f', V('a'))]
-            if not rhs or not safe:
-                ch += [F(V('p'), 'x'), I(V('t'), rng.randrange(2))]
+            ch = [N(rng.randrange(0, 50)), V('a'), V('b'), C('f', V('a')), F(V('p'), 'x'), I(V('t'), rng.randrange(2)), V('LIMIT')]
             return rng.choice(ch)
-        ch = [('B', rng.randrange(2)), V('c'), C('g', V('b'))]
-        if not rhs or not safe:
-            ch += [F(V('p'), 'flag')]
+        ch = [('B', rng.randrange(2)), V('c'), C('g', V('b')), F(V('p'), 'flag')]
         return rng.choice(ch)
 
     def go(ty, dep, rhs=False, grouped=False):
